@@ -892,6 +892,18 @@ pub fn c12(rep: &mut Report) {
             let op = o.clone();
             let _ = a.apply(&op);
             kept.push(op);
+            // retention monitor: no word of the driver object is an address inside a buffer lent so far
+            let words = crate::panels::words_of(&a.drv);
+            rep.count("driver_words_scanned", words.len() as u64);
+            for (ki, k) in kept.iter().enumerate() {
+                if let Op12::Write1(p) | Op12::Write2(p) | Op12::Write1Partial(_, p) | Op12::Write2Partial(_, p) | Op12::SetLut(_, p) = k {
+                    let lo = p.as_ptr() as usize;
+                    let hi = lo + p.len();
+                    if !p.is_empty() && words.iter().any(|w| *w >= lo && *w < hi) {
+                        fail(rep, k.name(), "pointer-retained", vec![], format!("after call #{} returned the driver object holds an address inside the {}-byte buffer lent to call #{} ({})", kept.len(), p.len(), ki + 1, k.name()), J::obj().set("panel", P).set("history", seq.iter().map(|o| o.to_json()).collect::<Vec<_>>()));
+                    }
+                }
+            }
         }
         let mut b = Rig12::ready();
         for o in &seq {
